@@ -224,7 +224,9 @@ class MappingStorage:
                            if tid_data.maxKey() > stop)
             while to_copy:
                 oid = to_copy.pop()
-                tid_data = self._data.pop(oid)
+                # (a dangling reference raises KeyError: nothing is lost,
+                # self._data is replaced only when the sweep is complete)
+                tid_data = self._data[oid]
                 new_data[oid] = tid_data
                 for pickle in tid_data.values():
                     for oid in referencesf(pickle):
@@ -234,6 +236,8 @@ class MappingStorage:
 
             # Remove left over data from transactions
             for oid, tid_data in self._data.items():
+                if oid in new_data:
+                    continue
                 for tid in tid_data:
                     if transactions[tid].pack(oid):
                         del transactions[tid]
